@@ -116,3 +116,29 @@ package witness
 //@ ensures [serves-only-a-held-sth-that-still-verifies-cosigned] result1 == nil ==> gl.res1 == nil && pa.called && pa.res1 == nil && sg.called && sg.res1 == nil && result0 == sg.res0
 //@ at pa assert [re-verifies-what-is-held] pa.sthRaw == gl.res0 && pa.logID == logID
 //@ at sg assert [cosigns-exactly-that-sth] sg.sth == pa.res0
+
+// C19 "every cosignature verifies under the witness key": the key a witness signs with is the one
+// parsed from the PKCS#8 PEM block it was configured with (no block or an unparsable key means no
+// witness), and it follows exactly the configured logs on the store it was given.
+//@ func New
+//@ props C19
+//@ site Exec#1 as ex
+//@ site pem.Decode#1 as pd
+//@ site x509.ParsePKCS8PrivateKey#1 as pk
+//@ requires wo.DB != nil
+//@ ensures [a-witness-or-an-error] (result0 != nil) != (result1 != nil)
+//@ ensures [no-table-no-witness] ex.res1 != nil ==> result0 == nil && !pk.called
+//@ ensures [no-key-no-witness] (pd.called && pd.res0 == nil) || (pk.called && pk.res1 != nil) ==> result0 == nil
+//@ ensures [follows-exactly-the-configured-logs-on-the-given-store] result1 == nil ==> result0.db == wo.DB && result0.Logs == wo.KnownLogs && pk.called && pk.res1 == nil
+//@ at pk assert [key-parsed-from-the-configured-pem-block] pd.res0 != nil && pk.der == pd.res0.Bytes
+
+// The list of logs is what the store lists: one entry per row, in row order; a failing query, scan or
+// iteration gives no list.
+//@ func (*Witness).GetLogs
+//@ props C19
+//@ arith int
+//@ site Query#1 as q
+//@ site Err#1 as re
+//@ requires w != nil && w.db != nil
+//@ ensures [a-failed-query-or-iteration-gives-no-list] q.res1 != nil || (re.called && re.res != nil) ==> result0 == nil && result1 != nil
+//@ ensures [a-list-only-after-the-iteration-ended-cleanly] result1 == nil ==> q.res1 == nil && re.called && re.res == nil
